@@ -358,6 +358,74 @@ pub enum Cred {
     OpenOtherMaster,
 }
 
+/// passwords which differ in leading / inner / trailing white space only
+const CHANNEL_PASSWORDS: [&str; 7] = ["pw", "pw ", " pw", "pw\t", "p w", "pw  ", "pw \t"];
+
+/// The password reaches the library directly, through a password file or through a password
+/// command (each with the line endings none, LF, CRLF). Every channel must deliver exactly the
+/// configured password: the repository initialised with password p (given directly) opens through
+/// each channel configured with p, and is refused for each other password of the alphabet.
+fn credential_channels(rep: &mut Report, args: &Args) {
+    use rustic_core::CredentialOptions;
+    let dir = vkit::fsx::sandbox(&format!("c04-cred-{}", args.shard));
+    let mut idx = 0usize;
+    for (pi, p) in CHANNEL_PASSWORDS.iter().enumerate() {
+        idx += 1;
+        if !args.mine(idx) {
+            continue;
+        }
+        let env = Env::single();
+        let init = Repository::new(&repo_opts(), &env.backends())
+            .and_then(|r| r.init(&Credentials::password(*p), &KeyOptions::default(), &ConfigOptions::default()));
+        if let Err(e) = init {
+            rep.violation("C04/cred-channel/init".to_string(), e.display_log(), json!({"part": "credential-channels", "password": p}));
+            continue;
+        }
+        for (qi, q) in CHANNEL_PASSWORDS.iter().enumerate() {
+            for (ei, ending) in ["", "\n", "\r\n"].iter().enumerate() {
+                for channel in ["file", "command"] {
+                    // the full product for the own password; other passwords with LF only
+                    if qi != pi && ei != 1 {
+                        continue;
+                    }
+                    rep.inc("cases");
+                    rep.inc("credential_channel_cases");
+                    let file = dir.join(format!("pw-{pi}-{qi}-{ei}"));
+                    std::fs::write(&file, format!("{q}{ending}")).expect("sandbox");
+                    let mut o = CredentialOptions::default();
+                    if channel == "file" {
+                        o.password_file = Some(file.clone());
+                    } else {
+                        o.password_command = Some(vec!["cat".to_string(), file.to_string_lossy().to_string()].into());
+                    }
+                    let case = json!({"part": "credential-channels", "initialised_with": p, "configured": q, "line_ending": ending, "channel": channel});
+                    let creds = match o.credentials() {
+                        Ok(Some(c)) => c,
+                        Ok(None) => {
+                            rep.violation(format!("C04/cred-channel/{channel}/no-credentials"), "no credentials derived from the options".to_string(), case);
+                            continue;
+                        }
+                        Err(e) => {
+                            rep.violation(format!("C04/cred-channel/{channel}/error"), e.display_log(), case);
+                            continue;
+                        }
+                    };
+                    let opened = Repository::new(&repo_opts(), &env.backends()).and_then(|r| r.open(&creds)).is_ok();
+                    if opened != (p == q) {
+                        let sig = if p == q { format!("C04/cred-channel/{channel}/right-password-refused") } else { format!("C04/cred-channel/{channel}/wrong-password-accepted") };
+                        if !rep.has_violation(&sig) {
+                            rep.violation(sig, format!("repository initialised with password {p:?}; password {q:?} + line ending {ending:?} through the password {channel}: opened = {opened}"), case);
+                        }
+                    } else if p != q {
+                        rep.inc("credential_channel_refusals");
+                    }
+                }
+            }
+        }
+    }
+    _ = std::fs::remove_dir_all(&dir);
+}
+
 fn run_credentials(hist: &[Cred], rep: &mut Report) -> Result<(), (String, String)> {
     let pw = |i: u8| format!("password-{i}");
     // a password-initialised repository (key 1 = password-1)
@@ -436,6 +504,14 @@ pub fn run(args: &Args, rep: &mut Report) {
                         rep.violation(format!("C04/undetected/{}/{}/{what}", fault.class(), ft_name(t)), msg, c.clone());
                     }
                 }
+            }
+            Some("credential-channels") => {
+                // the whole (small) channel product is re-run
+                let mut a2 = args.clone();
+                a2.replay = None;
+                a2.shard = 0;
+                a2.nshards = 1;
+                credential_channels(rep, &a2);
             }
             Some("credentials") => {
                 let h: Vec<Cred> = serde_json::from_value(c["history"].clone()).unwrap();
@@ -518,6 +594,7 @@ pub fn run(args: &Args, rep: &mut Report) {
             }
         }
     }
+    credential_channels(rep, args);
     for (i, h) in hists.iter().enumerate() {
         if !args.mine(i) {
             continue;
